@@ -653,7 +653,10 @@ func run(r *mon.Run) {
 	// comma-separated member, wherever else its letters occur in the value
 	for li, cc := range []string{"max-age=300, x-private-mode, private", `no-cache="private", private`, "x-no-store-hint=1, max-age=300, no-store", "x-max-age=1, max-age=300",
 		"non-public-ext, public", "x-private-mode, max-age=300", "private-ish=1", "my-no-store, public", "no-storex", "no-store-and-forward, private-network=1, s-maxage=1",
-		"PRIVATE", "max-age=300,private", `private="x-secret"`, "public, unprivate, restore=no-store", "x=private, y=no-store, max-age=1", "s-maxage=1, x-s-maxage=0", "publication=1", "xpublic, publicx"} {
+		"PRIVATE", "max-age=300,private", `private="x-secret"`, "public, unprivate, restore=no-store", "x=private, y=no-store, max-age=1", "s-maxage=1, x-s-maxage=0", "publication=1", "xpublic, publicx",
+		// quoted-string arguments WITHOUT a comma inside (splitting at commas and parsing quoted strings agree about these): an
+		// escaped backslash or quote right before the closing quote, the empty string - the directives after them still count
+		`ext="a\\", no-store`, `ext="a\\", max-age=60`, `ext="a\"b", private`, `ext="", no-store`, `ext="\\\\", private`, `ext="a\\", public`, `community="UCI", max-age=300`, `ext="\"", s-maxage=10`, `no-cache="set-cookie", no-store`} {
 		for _, st := range []int{200, 201} {
 			if !mine() {
 				continue
